@@ -274,6 +274,7 @@ impl Scenario for C17Multi {
     let mut hs: Vec<Option<MultiSubscriptionThreads>> = vec![Some(MultiSubscriptionThreads::default())];
     let mut members: Vec<Member> = Vec::new();
     let mut unsubscribed = false;
+    let mut twice = 0u64;
     let mut seen_closed = false;
     let mut appended_since_closed = false;
     let mut late_appends = 0u64;
@@ -335,8 +336,9 @@ impl Scenario for C17Multi {
           unsubscribed = true;
           trace.push_str("unsubscribe ");
           for (j, m) in members.iter().enumerate() {
-            if m.unsubscribed.load(SeqCst) > 1 && violation.is_none() {
-              violation = Some(Violation { rule: "c17.member-unsubscribed-twice".into(), site: site.clone(), detail: format!("`{}`: member {} unsubscribed {} times", trace.trim(), j, m.unsubscribed.load(SeqCst)) });
+            // (a member unsubscribed more than once is not against the statement: counted only)
+            if m.unsubscribed.load(SeqCst) > 1 {
+              twice += 1;
             }
             if !m.closed.load(SeqCst) && violation.is_none() {
               violation = Some(Violation { rule: "c17.member-left-running".into(), site: site.clone(), detail: format!("`{}`: member {} still running after the composite was unsubscribed", trace.trim(), j) });
@@ -399,7 +401,7 @@ impl Scenario for C17Multi {
       sim_ns: 0,
       steps: case.acts.len() as u64,
       faults: vec![("append_after_unsubscribe", late_appends)],
-      reach: vec![("late_append_to_closed_composite", late_appends)],
+      reach: vec![("late_append_to_closed_composite", late_appends), ("info:member_unsubscribed_more_than_once", twice)],
       resolved: None,
       sample: format!("{}: {}", site, trace.trim()),
     })
